@@ -400,6 +400,13 @@ class DimensionalityEstimator(BaseEstimator):
     def _set_local_dim_func(self):
         x = self.x
         landmarks = self.landmarks
+        if (
+            self.gp_type == GaussianProcessType.FULL
+            or self.gp_type == GaussianProcessType.FULL_NYSTROEM
+        ):
+            # Non-sparse models are conditioned on all cells; user supplied landmarks
+            # (not fewer than cells) play no role in the latent representation.
+            landmarks = None
         pre_transformation = self.pre_transformation[0, :]
         if self.gp_type == GaussianProcessType.SPARSE_NYSTROEM:
             # The latent vector lives in the rank-reduced eigenbasis, not in the
@@ -436,6 +443,13 @@ class DimensionalityEstimator(BaseEstimator):
     def _set_log_density_func(self):
         x = self.x
         landmarks = self.landmarks
+        if (
+            self.gp_type == GaussianProcessType.FULL
+            or self.gp_type == GaussianProcessType.FULL_NYSTROEM
+        ):
+            # Non-sparse models are conditioned on all cells; user supplied landmarks
+            # (not fewer than cells) play no role in the latent representation.
+            landmarks = None
         pre_transformation = self.pre_transformation[1, :]
         if self.gp_type == GaussianProcessType.SPARSE_NYSTROEM:
             # The latent vector lives in the rank-reduced eigenbasis, not in the
